@@ -319,6 +319,33 @@ func searchStrKey(p *binary.BinaryProtocol, key string, keyType proto.Type, mapF
 	return start, nil
 }
 
+// pathMismatch tells why the i-th path item can not be applied to a node of type tt described by desc,
+// it returns an empty string if it can
+func pathMismatch(i int, pt PathType, tt proto.Type, desc *proto.TypeDescriptor) string {
+	want := tt
+	switch pt {
+	case PathFieldId, PathFieldName:
+		want = proto.MESSAGE
+	case PathIndex:
+		want = proto.LIST
+	case PathStrKey, PathIntKey:
+		want = proto.MAP
+	}
+	if tt != want {
+		return fmt.Sprintf("%dth path expects %s node, got %s", i, want, tt)
+	}
+	if desc == nil || (tt == proto.MESSAGE && desc.Message() == nil) || (tt == proto.LIST && desc.Elem() == nil) || (tt == proto.MAP && (desc.Key() == nil || desc.Elem() == nil)) {
+		return fmt.Sprintf("%dth path: descriptor does not describe a %s node", i, tt)
+	}
+	if pt == PathStrKey && desc.Key().Type() != proto.STRING {
+		return fmt.Sprintf("%dth path expects MAP node with string key, got %s key", i, desc.Key().Type())
+	}
+	if pt == PathIntKey && !desc.Key().Type().IsInt() {
+		return fmt.Sprintf("%dth path expects MAP node with integer key, got %s key", i, desc.Key().Type())
+	}
+	return ""
+}
+
 func (self Value) GetByPath(pathes ...Path) Value {
 	value, _ := self.getByPath(pathes...)
 	return value
@@ -359,6 +386,10 @@ func (self Value) getByPath(pathes ...Path) (Value, []int) {
 
 	for i, path := range pathes {
 		isPacked = false
+		// the path item must fit both the type of the node it is applied to and its descriptor
+		if msg := pathMismatch(i, path.t, tt, desc); msg != "" {
+			return errValue(meta.ErrUnsupportedType, msg, nil), address
+		}
 		switch path.t {
 		case PathFieldId:
 			id := path.id()
